@@ -1,4 +1,329 @@
+/* eng_experiment.c - C19: cimba_run_experiment runs every trial exactly once, isolated, and
+ * independently of which worker thread runs which trial in which order.
+ *
+ * Plan lines:
+ *   INIT ntrials nworkers sizeidx schedseed switchpct yieldevery
+ *   TRIAL i kind seedcode n          trial i: content kind, seed, size parameter
+ * cimba_run_experiment is called for real; pthread_create/join and cmi_cpu_cores are wrapped at
+ * link time (baton.c): workers are real pthreads, parked and released one at a time at yield
+ * points in the trial function (entry, exit, every few dispatched events).  The order of releases
+ * IS the assignment of trials to workers and the completion order.
+ */
 #include "core.h"
-static void g(plan *p, uint64_t seed, const char *cfg) { (void)p; (void)seed; (void)cfg; }
-static void r(const plan *p) { (void)p; }
-const engine eng_experiment = { .name = "experiment", .props = "", .gen = g, .run = r, .rule = "stub" };
+#include "baton.h"
+#include <pthread.h>
+#include <stdlib.h>
+#include <string.h>
+#include <xmmintrin.h>
+#include "cimba.h"
+
+int __real_pthread_create(pthread_t *, const pthread_attr_t *, void *(*)(void *), void *);
+int __real_pthread_join(pthread_t, void **);
+
+#define MAXTRIALS 48
+#define NKINDS 6
+static const size_t SIZES[] = { 9, 16, 17, 24, 40, 63, 64, 100, 200 };
+#define NSIZES (sizeof SIZES / sizeof SIZES[0])
+
+typedef struct { uint32_t seed; uint8_t kind; uint8_t n; uint16_t idx; } tparams;   /* first 8 bytes of every element */
+
+static unsigned char *arr;
+static size_t esz;
+static int ntrials;
+static int calls[MAXTRIALS], active, max_active;
+static int worker_of[MAXTRIALS]; static int worker_trials[BATON_MAX + 1];
+static bool experiment_running;
+static int yield_every;
+static uint64_t total_events;
+
+/* ---------------------------------------------------------------- trial content */
+typedef struct { uint64_t r[6]; } tresult;
+static uint64_t dbl(double d) { uint64_t v; memcpy(&v, &d, sizeof v); return v; }
+
+static void run_queue(void)
+{
+    uint64_t n = 0;
+    while (cmb_event_execute_next()) { total_events++; if (yield_every > 0 && (++n % (uint64_t)yield_every) == 0) baton_yield(); }
+}
+
+struct mg1 { struct cmb_buffer *buf; unsigned n; double svc_sum; unsigned served; uint64_t flipsum; double t_end; };
+static void *mg1_arrivals(struct cmb_process *me, void *ctx)
+{
+    (void)me; struct mg1 *m = ctx;
+    for (unsigned i = 0; i < m->n; i++) {
+        (void)cmb_process_hold(cmb_random_exponential(1.0));
+        uint64_t one = 1;
+        (void)cmb_buffer_put(m->buf, &one);
+    }
+    return NULL;
+}
+static void *mg1_server(struct cmb_process *me, void *ctx)
+{
+    (void)me; struct mg1 *m = ctx;
+    while (m->served < m->n) {
+        uint64_t one = 1;
+        if (cmb_buffer_get(m->buf, &one) != CMB_PROCESS_SUCCESS) break;
+        const double s = cmb_random_gamma(2.0, 0.4) + (cmb_random_flip() ? 0.25 : 0.0);
+        m->flipsum = m->flipsum * 3 + (uint64_t)cmb_random_flip();
+        m->svc_sum += s;
+        (void)cmb_process_hold(s);
+        m->served++;
+    }
+    m->t_end = cmb_time();
+    return NULL;
+}
+
+struct poolw { struct cmb_resourcepool *pool; unsigned n; uint64_t got[3], lost[3]; };
+struct poolctx { struct poolw *w; int me; };
+static void *pool_user(struct cmb_process *me, void *ctx)
+{
+    (void)me; struct poolctx *c = ctx; struct poolw *w = c->w;
+    for (unsigned i = 0; i < w->n; i++) {
+        const uint64_t amt = 1 + (uint64_t)cmb_random_dice(0, 2);
+        const int64_t sig = (c->me == 2 && cmb_random_flip()) ? cmb_resourcepool_preempt(w->pool, amt) : cmb_resourcepool_acquire(w->pool, amt);
+        if (sig == CMB_PROCESS_SUCCESS) {
+            w->got[c->me] += amt;
+            const int64_t s2 = cmb_process_hold(cmb_random_exponential(0.7));
+            if (s2 == CMB_PROCESS_SUCCESS) cmb_resourcepool_release(w->pool, amt); else w->lost[c->me] += amt;
+        } else w->lost[c->me]++;
+        (void)cmb_process_hold(cmb_random_uniform(0.0, 0.5));
+    }
+    return NULL;
+}
+
+static void *looper(struct cmb_process *me, void *ctx)
+{
+    (void)me; uint64_t *cnt = ctx;
+    for (;;) { if (cmb_process_hold(cmb_random_exponential(1.0)) != CMB_PROCESS_SUCCESS) break; (*cnt)++; }
+    return NULL;
+}
+static void end_event(void *s, void *o) { (void)s; (void)o; cmb_event_queue_clear(); }
+
+static void trial_compute(const tparams *tp, tresult *res)
+{
+    memset(res, 0, sizeof *res);
+    cmb_logger_flags_off(CMB_LOGGER_INFO | CMB_LOGGER_WARNING);      /* the mask is thread-local: a fresh worker logs everything */
+    cmb_random_initialize(0xC19000000000ull + tp->seed);
+    res->r[5] = 0x7121A1ull + tp->idx;
+    switch (tp->kind % NKINDS) {
+    case 0: break;                                                   /* an empty trial */
+    case 1: case 4: {
+        if (tp->kind % NKINDS == 4) { cmb_logger_flags_off(CMB_LOGGER_ERROR); cmb_logger_flags_on(0x1u); }
+        cmb_event_queue_initialize(0.0);
+        struct mg1 m; memset(&m, 0, sizeof m); m.n = 3 + tp->n % 40u;
+        m.buf = cmb_buffer_create(); cmb_buffer_initialize(m.buf, "q", CMB_UNLIMITED);
+        struct cmb_process *a = cmb_process_create(), *s = cmb_process_create();
+        cmb_process_initialize(a, "arr", mg1_arrivals, &m, 1); cmb_process_initialize(s, "srv", mg1_server, &m, 0);
+        cmb_process_start(a); cmb_process_start(s);
+        baton_yield();
+        run_queue();
+        res->r[0] = dbl(m.t_end); res->r[1] = m.served; res->r[2] = dbl(m.svc_sum); res->r[3] = m.flipsum; res->r[4] = dbl(cmb_time());
+        cmb_process_terminate(a); cmb_process_destroy(a); cmb_process_terminate(s); cmb_process_destroy(s);
+        cmb_buffer_destroy(m.buf);
+        cmb_event_queue_terminate();
+        break; }
+    case 2: {
+        cmb_event_queue_initialize(0.0);
+        struct poolw w; memset(&w, 0, sizeof w); w.n = 2 + tp->n % 12u;
+        w.pool = cmb_resourcepool_create(); cmb_resourcepool_initialize(w.pool, "p", 4);
+        struct cmb_process *p[3]; struct poolctx c[3];
+        for (int i = 0; i < 3; i++) { c[i].w = &w; c[i].me = i; p[i] = cmb_process_create(); cmb_process_initialize(p[i], "u", pool_user, &c[i], i); cmb_process_start(p[i]); }
+        baton_yield();
+        run_queue();
+        for (int i = 0; i < 3; i++) { res->r[i] = w.got[i] * 1000 + w.lost[i]; }
+        res->r[3] = dbl(cmb_time()); res->r[4] = cmb_resourcepool_in_use(w.pool);
+        for (int i = 0; i < 3; i++) { cmb_process_terminate(p[i]); cmb_process_destroy(p[i]); }
+        cmb_resourcepool_destroy(w.pool);
+        cmb_event_queue_terminate();
+        break; }
+    case 3: {                                                         /* sampling only, flip- and gamma-heavy */
+        uint64_t h = 0; double acc = 0.0;
+        const unsigned n = 5 + tp->n;
+        for (unsigned i = 0; i < n; i++) {
+            h = h * 2 + (uint64_t)cmb_random_flip();
+            if (i % 3 == 0) acc += cmb_random_gamma(0.5 + (double)(tp->n % 4), 1.0);
+            if (i % 5 == 0) h ^= cmb_random_geometric(0.3);
+            if (i % 7 == 0) { baton_yield(); h ^= cmb_random_sfc64(); }
+        }
+        res->r[0] = h; res->r[1] = dbl(acc); res->r[2] = cmb_random_sfc64();
+        break; }
+    default: {                                                        /* leaves processes unfinished */
+        cmb_event_queue_initialize(0.0);
+        uint64_t cnt[3] = { 0, 0, 0 };
+        struct cmb_process *p[3];
+        for (int i = 0; i < 3; i++) { p[i] = cmb_process_create(); cmb_process_initialize(p[i], "l", looper, &cnt[i], i); cmb_process_start(p[i]); }
+        (void)cmb_event_schedule(end_event, NULL, NULL, 5.0 + tp->n % 10u, 100);
+        baton_yield();
+        run_queue();
+        res->r[0] = cnt[0]; res->r[1] = cnt[1]; res->r[2] = cnt[2]; res->r[3] = dbl(cmb_time());
+        for (int i = 0; i < 3; i++) { cmb_process_stop(p[i], NULL); cmb_process_terminate(p[i]); cmb_process_destroy(p[i]); }
+        cmb_event_queue_terminate();
+        break; }
+    }
+}
+
+static void store_result(unsigned char *elem, const tresult *res)
+{
+    const size_t room = esz - sizeof(tparams);
+    memcpy(elem + sizeof(tparams), res, room < sizeof *res ? room : sizeof *res);
+}
+
+static void trial_fn(void *vp)
+{
+    unsigned char *elem = vp;
+    baton_yield();                                                   /* trial entry */
+    const ptrdiff_t off = elem - arr;
+    if (off < 0 || (size_t)off % esz != 0 || (size_t)off / esz >= (size_t)ntrials) {
+        viol("C19", "wrong-element", "trial function called with %p, not an element of the array", vp);
+        return;
+    }
+    const int i = (int)((size_t)off / esz);
+    calls[i]++;
+    active++; if (active > max_active) max_active = active;
+    if (!experiment_running) viol("C19", "call-outside-experiment", "trial %d called outside cimba_run_experiment", i);
+    const int w = baton_self();
+    worker_of[i] = w;
+    if (w >= 0) { if (worker_trials[w] > 0) PROBE("exp.trial_on_dirty_worker"); worker_trials[w]++; }
+    tparams tp; memcpy(&tp, elem, sizeof tp);
+    tresult res;
+    trial_compute(&tp, &res);
+    store_result(elem, &res);
+    TR2("trial-done", i, w);
+    active--;
+    baton_yield();                                                   /* trial exit */
+}
+
+static void *ref_thread(void *vp)
+{
+    /* reference: one trial in a fresh thread, nothing before it, nobody beside it */
+    unsigned char *elem = vp;
+    tparams tp; memcpy(&tp, elem, sizeof tp);
+    tresult res;
+    trial_compute(&tp, &res);
+    store_result(elem, &res);
+    cmi_mempool_cleanup(NULL);
+    return NULL;
+}
+static unsigned char *seq_arr;
+static void *seq_thread(void *vp)
+{
+    (void)vp;
+    for (int i = ntrials - 1; i >= 0; i--) {                          /* one after another, in another order */
+        unsigned char *elem = seq_arr + (size_t)i * esz;
+        tparams tp; memcpy(&tp, elem, sizeof tp);
+        tresult res;
+        trial_compute(&tp, &res);
+        store_result(elem, &res);
+    }
+    cmi_mempool_cleanup(NULL);
+    return NULL;
+}
+
+static void ex_run(const plan *p)
+{
+    cmb_logger_flags_off(CMB_LOGGER_INFO | CMB_LOGGER_WARNING);
+    ntrials = 4; int nworkers = 3, sizeidx = 3, pct = 60; uint64_t sched = 1; yield_every = 5;
+    for (int i = 0; i < p->n; i++) if (pis(&p->l[i], "INIT")) {
+        const pline *l = &p->l[i];
+        ntrials = 1 + (int)((uint64_t)pa(l, 0) % MAXTRIALS); nworkers = 1 + (int)((uint64_t)pa(l, 1) % 9);
+        sizeidx = (int)((uint64_t)pa(l, 2) % NSIZES); sched = (uint64_t)pa(l, 3); pct = (int)((uint64_t)pa(l, 4) % 101);
+        yield_every = (int)((uint64_t)pa(l, 5) % 50);
+        break;
+    }
+    esz = SIZES[sizeidx];
+    arr = calloc((size_t)ntrials + 1, esz);
+    unsigned char *refarr = calloc((size_t)ntrials + 1, esz);
+    seq_arr = calloc((size_t)ntrials + 1, esz);
+    for (int i = 0; i < ntrials; i++) {
+        tparams tp = { .seed = (uint32_t)(1000 + i), .kind = (uint8_t)(i % NKINDS), .n = (uint8_t)(5 + i), .idx = (uint16_t)i };
+        for (int k = 0; k < p->n; k++) {
+            const pline *l = &p->l[k];
+            if (pis(l, "TRIAL") && (int)((uint64_t)pa(l, 0) % (uint64_t)ntrials) == i) { tp.kind = (uint8_t)((uint64_t)pa(l, 1) % NKINDS); tp.seed = (uint32_t)pa(l, 2); tp.n = (uint8_t)pa(l, 3); }
+        }
+        memcpy(arr + (size_t)i * esz, &tp, sizeof tp);
+        memset(arr + (size_t)i * esz + sizeof tp, 0xEE, esz - sizeof tp);
+    }
+    memset(arr + (size_t)ntrials * esz, 0x5A, esz);                    /* canary element after the array */
+    memcpy(refarr, arr, ((size_t)ntrials + 1) * esz);
+    memcpy(seq_arr, arr, ((size_t)ntrials + 1) * esz);
+    memset(calls, 0, sizeof calls); memset(worker_trials, 0, sizeof worker_trials);
+    active = max_active = 0; total_events = 0;
+
+    const uint32_t csr0 = _mm_getcsr();
+    baton_begin(sched, pct);
+    baton_set_cores((uint32_t)nworkers);
+    experiment_running = true;
+    cimba_run_experiment(arr, (uint64_t)ntrials, esz, trial_fn);
+    experiment_running = false;
+    const int active_at_return = active;
+    int undone = 0;
+    for (int i = 0; i < ntrials; i++) if (calls[i] == 0) undone++;
+    baton_run_all();                       /* whatever was not joined is drained here, so that the run can end */
+    g_stats.faults = baton_switches();
+    baton_end();
+    _mm_setcsr(csr0);
+
+    if (active_at_return != 0 || undone != 0)
+        viol("C19", "returned-early", "cimba_run_experiment returned while %d trial calls were still running and %d trials had not begun", active_at_return, undone);
+    for (int i = 0; i < ntrials; i++)
+        if (calls[i] != 1) viol("C19", calls[i] == 0 ? "trial-not-run" : "trial-run-twice", "trial %d of %d was called %d times (%d workers)", i, ntrials, calls[i], nworkers);
+    for (size_t b = 0; b < esz; b++) if (arr[(size_t)ntrials * esz + b] != 0x5A) { viol("C19", "wrote-past-array", "the element after the trial array was modified"); break; }
+
+    if (g_nviol == 0) {
+        for (int i = 0; i < ntrials; i++) {
+            pthread_t th;
+            __real_pthread_create(&th, NULL, ref_thread, refarr + (size_t)i * esz);
+            __real_pthread_join(th, NULL);
+        }
+        pthread_t th;
+        __real_pthread_create(&th, NULL, seq_thread, NULL);
+        __real_pthread_join(th, NULL);
+        for (int i = 0; i < ntrials; i++) {
+            if (memcmp(seq_arr + (size_t)i * esz, refarr + (size_t)i * esz, esz) != 0) {
+                tparams tp; memcpy(&tp, arr + (size_t)i * esz, sizeof tp);
+                viol("C19", "sequential-depends-on-earlier-trial", "trial %d (kind %d): result in a one-after-another run differs from its result in a fresh thread", i, tp.kind % NKINDS);
+                break;
+            }
+            if (memcmp(arr + (size_t)i * esz, refarr + (size_t)i * esz, esz) != 0) {
+                tparams tp; memcpy(&tp, arr + (size_t)i * esz, sizeof tp);
+                viol("C19", worker_trials[worker_of[i] < 0 ? 0 : worker_of[i]] > 1 ? "result-depends-on-schedule/dirty-worker" : "result-depends-on-schedule",
+                     "trial %d (kind %d, on worker %d): result differs from the same trial run alone in a fresh thread", i, tp.kind % NKINDS, worker_of[i]);
+                break;
+            }
+        }
+    }
+    for (int i = 0; i < ntrials; i++) TR3("res", i, worker_of[i], mix64(arr[(size_t)i * esz + 8], arr[(size_t)i * esz + esz - 1]));
+    g_stats.events = total_events;
+    int busy = 0; for (int w = 0; w < BATON_MAX; w++) if (worker_trials[w] > 1) busy++;
+    g_stats.nontrivial = busy > 0 && g_stats.faults > 0;
+    if (max_active > 1) PROBE("exp.trials_overlapped");
+    if (ntrials < nworkers) PROBE("exp.fewer_trials_than_workers");
+    if (ntrials == nworkers) PROBE("exp.trials_equal_workers");
+    if (ntrials > 3 * nworkers) PROBE("exp.many_more_trials_than_workers");
+    free(arr); free(refarr); free(seq_arr);
+}
+
+static void ex_gen(plan *p, uint64_t seed, const char *cfg)
+{
+    (void)cfg;
+    vrng r; vrng_seed(&r, seed);
+    const int nw = 1 + (int)vrng_below(&r, 9);
+    int nt;
+    switch (vrng_below(&r, 5)) {
+        case 0: nt = 1; break;
+        case 1: nt = 1 + (int)vrng_below(&r, (uint64_t)nw); break;
+        case 2: nt = nw; break;
+        default: nt = nw + 1 + (int)vrng_below(&r, 30); break;
+    }
+    if (nt > MAXTRIALS) nt = MAXTRIALS;
+    plan_add(p, "INIT", 6, (int64_t)(nt - 1), (int64_t)(nw - 1), (int64_t)vrng_below(&r, NSIZES), (int64_t)(vrng_next(&r) >> 16),
+             (int64_t)(10 + vrng_below(&r, 91)), (int64_t)vrng_below(&r, 30));
+    const bool shared_seed = vrng_chance(&r, 1, 3);
+    for (int i = 0; i < nt; i++)
+        plan_add(p, "TRIAL", 4, (int64_t)i, (int64_t)vrng_below(&r, NKINDS), shared_seed ? (int64_t)42 : (int64_t)vrng_below(&r, 100000), (int64_t)vrng_below(&r, 200));
+}
+
+const engine eng_experiment = {
+    .name = "experiment", .props = "C19", .gen = ex_gen, .run = ex_run,
+    .rule = "runs in which some worker thread ran more than one trial and the baton changed hands between workers at least once",
+};
